@@ -40,6 +40,19 @@ NON_ASCII = [
 ]
 
 
+# comments in the first two lines that look like, or are, PEP 263 encoding declarations (all of these files are UTF-8)
+COOKIE_LIKE = [
+    "# decoding: see the notes below\nx = '\u00e9'\n",
+    "# -*- coding: utf-8 -*-\nx = '\u00e9' +\n",
+    "#!/usr/bin/env xonsh\n# vim: set fileencoding=utf-8 :\ny = '\u20ac'\n",
+    "# encoding=utf8\nls -l ~/Caf\u00e9\n",
+    "# This file uses the following encoding: utf-8\nz = 1\n",
+    "# -*- coding: utf-8-unix -*-\nw = '\u00e9'\n",
+    "x = 1  # coding: see PEP 263\n# coding=value is mentioned here too\ny = '\u00e9' if\n",
+    "# transcoding=none needed\nprint('\u00e9')\n",
+]
+
+
 # ----------------------------------------------------------------------------------------------
 # workload
 
@@ -50,7 +63,8 @@ def build_cases(tier: str) -> list[dict]:
     for rel, content in pool.data_files(2048):
         if content not in texts:
             texts.append(content)
-    texts = sorted(set(texts) | set(NON_ASCII) | {pool.padded(t, k) for t in pool.carrier_texts() for k in (7, 9)})
+    texts = sorted(set(texts) | set(NON_ASCII) | set(COOKIE_LIKE)
+                   | {pool.padded(t, k) for t in pool.carrier_texts() for k in (7, 9)})
     cases = []
     # configuration A
     for ti, t in enumerate(texts):
